@@ -1017,7 +1017,9 @@ func callBuiltin(caller *frame, fn *ssa.Builtin, args []value) value {
 		return copy(dst, srcv)
 
 	case "close": // close(chan T)
+		caller.i.m.observe(caller, "before-close")
 		caller.i.m.chanClose(args[0].(*vchan))
+		caller.i.m.observe(caller, "after-close")
 		return nil
 
 	case "clear":
